@@ -1123,8 +1123,8 @@ impl TypeChecker {
                         self.inv(), same_graph(ts0, self.types@), self.variables == old(self).variables, //# C07 add.loop1.aux1
                         forall|o: Seq<TypeNode>| #[trigger] same_graph(o, ts0) ==> same_graph(o, self.types@), //# C07 add.loop1.aux2
                         tview(self.types@) == m, ts0 == old(self).types@, xs.len() == ys.len(), //# C07 add.loop1.aux3
-                        it.seq().len() == xs.len(), //# C07 add.loop1.aux4
-                        forall|i: int| 0 <= i < xs.len() ==> *(#[trigger] it.seq()[i]).0 == xs[i] && *it.seq()[i].1 == ys[i], //# C07 add.loop1.aux5
+                        it.seq().len() == xs.len(), //# - add.loop1.aux4
+                        forall|i: int| 0 <= i < xs.len() ==> *(#[trigger] it.seq()[i]).0 == xs[i] && *it.seq()[i].1 == ys[i], //# - add.loop1.aux5
                         m[a_id.0 as int] is Tuple, m[b_id.0 as int] is Tuple, //# C07 add.loop1.aux6
                         xs == m[a_id.0 as int]->Tuple_0@, ys == m[b_id.0 as int]->Tuple_0@, //# C07 add.loop1.aux7
                         forall|k: int| 0 <= k < xs.len() ==> (#[trigger] xs[k]).0 < ts0.len() && (#[trigger] ys[k]).0 < ts0.len(), //# C07 add.loop1.aux8
@@ -1177,8 +1177,8 @@ impl TypeChecker {
                         self.inv(), same_graph(ts0, self.types@), self.variables == old(self).variables, //# C07 sub.loop1.aux1
                         forall|o: Seq<TypeNode>| #[trigger] same_graph(o, ts0) ==> same_graph(o, self.types@), //# C07 sub.loop1.aux2
                         tview(self.types@) == m, ts0 == old(self).types@, xs.len() == ys.len(), //# C07 sub.loop1.aux3
-                        it.seq().len() == xs.len(), //# C07 sub.loop1.aux4
-                        forall|i: int| 0 <= i < xs.len() ==> *(#[trigger] it.seq()[i]).0 == xs[i] && *it.seq()[i].1 == ys[i], //# C07 sub.loop1.aux5
+                        it.seq().len() == xs.len(), //# - sub.loop1.aux4
+                        forall|i: int| 0 <= i < xs.len() ==> *(#[trigger] it.seq()[i]).0 == xs[i] && *it.seq()[i].1 == ys[i], //# - sub.loop1.aux5
                         m[a_id.0 as int] is Tuple, m[b_id.0 as int] is Tuple, //# C07 sub.loop1.aux6
                         xs == m[a_id.0 as int]->Tuple_0@, ys == m[b_id.0 as int]->Tuple_0@, //# C07 sub.loop1.aux7
                         forall|k: int| 0 <= k < xs.len() ==> (#[trigger] xs[k]).0 < ts0.len() && (#[trigger] ys[k]).0 < ts0.len(), //# C07 sub.loop1.aux8
@@ -1230,8 +1230,8 @@ impl TypeChecker {
                         self.inv(), same_graph(ts0, self.types@), self.variables == old(self).variables, //# C07 mul.loop1.aux1
                         forall|o: Seq<TypeNode>| #[trigger] same_graph(o, ts0) ==> same_graph(o, self.types@), //# C07 mul.loop1.aux2
                         tview(self.types@) == m, ts0 == old(self).types@, xs.len() == ys.len(), //# C07 mul.loop1.aux3
-                        it.seq().len() == xs.len(), //# C07 mul.loop1.aux4
-                        forall|i: int| 0 <= i < xs.len() ==> *(#[trigger] it.seq()[i]).0 == xs[i] && *it.seq()[i].1 == ys[i], //# C07 mul.loop1.aux5
+                        it.seq().len() == xs.len(), //# - mul.loop1.aux4
+                        forall|i: int| 0 <= i < xs.len() ==> *(#[trigger] it.seq()[i]).0 == xs[i] && *it.seq()[i].1 == ys[i], //# - mul.loop1.aux5
                         m[a_id.0 as int] is Tuple, m[b_id.0 as int] is Tuple, //# C07 mul.loop1.aux6
                         xs == m[a_id.0 as int]->Tuple_0@, ys == m[b_id.0 as int]->Tuple_0@, //# C07 mul.loop1.aux7
                         forall|k: int| 0 <= k < xs.len() ==> (#[trigger] xs[k]).0 < ts0.len() && (#[trigger] ys[k]).0 < ts0.len(), //# C07 mul.loop1.aux8
@@ -1283,8 +1283,8 @@ impl TypeChecker {
                         self.inv(), same_graph(ts0, self.types@), self.variables == old(self).variables, //# C07 cmp.loop1.aux1
                         forall|o: Seq<TypeNode>| #[trigger] same_graph(o, ts0) ==> same_graph(o, self.types@), //# C07 cmp.loop1.aux2
                         tview(self.types@) == m, ts0 == old(self).types@, xs.len() == ys.len(), //# C07 cmp.loop1.aux3
-                        it.seq().len() == xs.len(), //# C07 cmp.loop1.aux4
-                        forall|i: int| 0 <= i < xs.len() ==> *(#[trigger] it.seq()[i]).0 == xs[i] && *it.seq()[i].1 == ys[i], //# C07 cmp.loop1.aux5
+                        it.seq().len() == xs.len(), //# - cmp.loop1.aux4
+                        forall|i: int| 0 <= i < xs.len() ==> *(#[trigger] it.seq()[i]).0 == xs[i] && *it.seq()[i].1 == ys[i], //# - cmp.loop1.aux5
                         m[a_id.0 as int] is Tuple, m[b_id.0 as int] is Tuple, //# C07 cmp.loop1.aux6
                         xs == m[a_id.0 as int]->Tuple_0@, ys == m[b_id.0 as int]->Tuple_0@, //# C07 cmp.loop1.aux7
                         forall|k: int| 0 <= k < xs.len() ==> (#[trigger] xs[k]).0 < ts0.len() && (#[trigger] ys[k]).0 < ts0.len(), //# C07 cmp.loop1.aux8
@@ -1336,8 +1336,8 @@ impl TypeChecker {
                         self.inv(), same_graph(ts0, self.types@), self.variables == old(self).variables, //# C07 div.loop1.aux1
                         forall|o: Seq<TypeNode>| #[trigger] same_graph(o, ts0) ==> same_graph(o, self.types@), //# C07 div.loop1.aux2
                         tview(self.types@) == m, ts0 == old(self).types@, //# C07 div.loop1.aux3
-                        it.seq().len() == xs.len(), //# C07 div.loop1.aux4
-                        forall|i: int| 0 <= i < xs.len() ==> *(#[trigger] it.seq()[i]) == xs[i], //# C07 div.loop1.aux5
+                        it.seq().len() == xs.len(), //# - div.loop1.aux4
+                        forall|i: int| 0 <= i < xs.len() ==> *(#[trigger] it.seq()[i]) == xs[i], //# - div.loop1.aux5
                         m[a_id.0 as int] is Tuple, is_num(m[b_id.0 as int]), b == b_id, //# C07 div.loop1.aux6
                         xs == m[a_id.0 as int]->Tuple_0@, //# C07 div.loop1.aux7
                         forall|k: int| 0 <= k < xs.len() ==> (#[trigger] xs[k]).0 < ts0.len(), //# C07 div.loop1.aux8
@@ -1357,8 +1357,8 @@ impl TypeChecker {
                         self.inv(), same_graph(ts0, self.types@), self.variables == old(self).variables, //# C07 div.loop2.aux1
                         forall|o: Seq<TypeNode>| #[trigger] same_graph(o, ts0) ==> same_graph(o, self.types@), //# C07 div.loop2.aux2
                         tview(self.types@) == m, ts0 == old(self).types@, xs.len() == ys.len(), //# C07 div.loop2.aux3
-                        it.seq().len() == xs.len(), //# C07 div.loop2.aux4
-                        forall|i: int| 0 <= i < xs.len() ==> *(#[trigger] it.seq()[i]).0 == xs[i] && *it.seq()[i].1 == ys[i], //# C07 div.loop2.aux5
+                        it.seq().len() == xs.len(), //# - div.loop2.aux4
+                        forall|i: int| 0 <= i < xs.len() ==> *(#[trigger] it.seq()[i]).0 == xs[i] && *it.seq()[i].1 == ys[i], //# - div.loop2.aux5
                         m[a_id.0 as int] is Tuple, m[b_id.0 as int] is Tuple, //# C07 div.loop2.aux6
                         xs == m[a_id.0 as int]->Tuple_0@, ys == m[b_id.0 as int]->Tuple_0@, //# C07 div.loop2.aux7
                         forall|k: int| 0 <= k < xs.len() ==> (#[trigger] xs[k]).0 < ts0.len() && (#[trigger] ys[k]).0 < ts0.len(), //# C07 div.loop2.aux8
@@ -1571,8 +1571,8 @@ impl TypeChecker {
                             invariant
                                 self.inv2(), self.grows(old(self)), n == self.variables@.len(), vs == self.variables@, il == ctx.inside_loop, ip == ctx.inside_pure, self.types@.len() >= n1, //# C04,C05 expression.loop1.aux1
                                 ret is Some ==> self.valid(ret->Some_0), self.valid(ret_ty), //# C07 expression.loop1.aux2
-                                it.seq().len() == args@.len(), args@.len() == params@.len(), //# C07 expression.loop1.aux3
-                                forall|k: int| 0 <= k < args@.len() ==> *(#[trigger] it.seq()[k]).0 == args@[k] && *it.seq()[k].1 == params@[k], //# C07 expression.loop1.aux4
+                                it.seq().len() == args@.len(), args@.len() == params@.len(), //# - expression.loop1.aux3
+                                forall|k: int| 0 <= k < args@.len() ==> *(#[trigger] it.seq()[k]).0 == args@[k] && *it.seq()[k].1 == params@[k], //# - expression.loop1.aux4
                                 forall|k: int| 0 <= k < params@.len() ==> ((#[trigger] params@[k]).0 as int) < n1, //# C07 expression.loop1.aux5
                                 forall|k: int| 0 <= k < args@.len() ==> e_ok(#[trigger] args@[k], n), //# C07 expression.loop1.aux6
                                 forall|k: int| 0 <= k < it.index@ ==> e_both(vs, #[trigger] args@[k], il, ip), //# C04,C05 expression.loop1.arguments_checked
@@ -1580,8 +1580,8 @@ impl TypeChecker {
 //@   loop 2 binder it
                     invariant
                         self.inv2(), self.grows(old(self)), n == self.variables@.len(), vs == self.variables@, il == ctx.inside_loop, ip == ctx.inside_pure, //# C04,C05 expression.loop2.aux1
-                        it.seq().len() == branches@.len(), //# C07 expression.loop2.aux2
-                        forall|k: int| 0 <= k < branches@.len() ==> *(#[trigger] it.seq()[k]) == branches@[k], //# C07 expression.loop2.aux3
+                        it.seq().len() == branches@.len(), //# - expression.loop2.aux2
+                        forall|k: int| 0 <= k < branches@.len() ==> *(#[trigger] it.seq()[k]) == branches@[k], //# - expression.loop2.aux3
                         forall|k: int| 0 <= k < branches@.len() ==> ib_ok(#[trigger] branches@[k], n), //# C07 expression.loop2.aux4
                         tys_valid(tys@, self.types@.len() as int), //# C07 expression.loop2.aux5
                         forall|k: int| 0 <= k < it.index@ ==> ib_str(vs, #[trigger] branches@[k], il, ip), //# C04,C05 expression.loop2.branches_checked
@@ -1592,16 +1592,16 @@ impl TypeChecker {
 //@   loop 3 binder it
                         invariant
                             self.inv2(), self.grows(old(self)), n == self.variables@.len(), vs == self.variables@, il == ctx.inside_loop, ip == ctx.inside_pure, self.types@.len() >= n3, //# C04,C05 expression.loop3.aux1
-                            tys_valid(tys@, n3 as int), it.seq().len() == tys@.len(), //# C07 expression.loop3.aux2
-                            forall|k: int| 0 <= k < tys@.len() ==> *(#[trigger] it.seq()[k]) == tys@[k], //# C07 expression.loop3.aux3
+                            tys_valid(tys@, n3 as int), it.seq().len() == tys@.len(), //# - expression.loop3.aux2
+                            forall|k: int| 0 <= k < tys@.len() ==> *(#[trigger] it.seq()[k]) == tys@[k], //# - expression.loop3.aux3
                             ret is Some ==> self.valid(ret->Some_0), value is Some ==> self.valid(value->Some_0), //# C07 expression.loop3.aux4
 //@   endloop
 //@   loop 4 binder it
                     invariant
                         self.inv2(), self.grows(old(self)), n == self.variables@.len(), vs == self.variables@, il == ctx.inside_loop, ip == ctx.inside_pure, self.valid(to_match), //# C04,C05 expression.loop4.aux1
                         vstd::std_specs::btree::key_obeys_cmp_spec::<String>(), //# C07 expression.loop4.aux2
-                        it.seq().len() == branches@.len(), //# C07 expression.loop4.aux3
-                        forall|k: int| 0 <= k < branches@.len() ==> *(#[trigger] it.seq()[k]) == branches@[k], //# C07 expression.loop4.aux4
+                        it.seq().len() == branches@.len(), //# - expression.loop4.aux3
+                        forall|k: int| 0 <= k < branches@.len() ==> *(#[trigger] it.seq()[k]) == branches@[k], //# - expression.loop4.aux4
                         forall|k: int| 0 <= k < branches@.len() ==> cb_ok(#[trigger] branches@[k], n), //# C07 expression.loop4.aux5
                         ret is Some ==> self.valid(ret->Some_0), value is Some ==> self.valid(value->Some_0), //# C07 expression.loop4.aux6
                         forall|k: int| 0 <= k < it.index@ ==> cb_str(vs, #[trigger] branches@[k], il, ip), //# C04,C05 expression.loop4.arms_checked
@@ -1613,8 +1613,8 @@ impl TypeChecker {
                     invariant
                         self.inv2(), self.grows(old(self)), n == self.variables@.len(), vs == self.variables@, il == ctx.inside_loop, ip == ctx.inside_pure, self.valid(blob_ty), self.types@.len() >= n5, //# C04,C05 expression.loop5.aux1
                         vstd::std_specs::btree::key_obeys_cmp_spec::<String>(), //# C07 expression.loop5.aux2
-                        it.seq().len() == fields@.len(), //# C07 expression.loop5.aux3
-                        forall|k: int| 0 <= k < fields@.len() ==> *(#[trigger] it.seq()[k]) == fields@[k], //# C07 expression.loop5.aux4
+                        it.seq().len() == fields@.len(), //# - expression.loop5.aux3
+                        forall|k: int| 0 <= k < fields@.len() ==> *(#[trigger] it.seq()[k]) == fields@[k], //# - expression.loop5.aux4
                         fields_in_range(given_fields, self.types@.len() as int), //# C07 expression.loop5.aux5
                         forall|k: int| 0 <= k < it.index@ ==> given_fields@.dom().contains((#[trigger] fields@[k]).0), //# C07 expression.loop5.every_given_field_gets_a_type
 //@   endloop
@@ -1632,8 +1632,8 @@ impl TypeChecker {
                         self.inv2(), self.grows(old(self)), n == self.variables@.len(), vs == self.variables@, il == ctx.inside_loop, ip == ctx.inside_pure, self.types@.len() >= n8, //# C04,C05 expression.loop8.aux1
                         vstd::std_specs::btree::key_obeys_cmp_spec::<String>(), //# C07 expression.loop8.aux2
                         self.valid(given_blob), self.valid(blob_ty), ret is Some ==> self.valid(ret->Some_0), //# C07 expression.loop8.aux3
-                        it.seq().len() == fields@.len(), //# C07 expression.loop8.aux4
-                        forall|k: int| 0 <= k < fields@.len() ==> *(#[trigger] it.seq()[k]) == fields@[k], //# C07 expression.loop8.aux5
+                        it.seq().len() == fields@.len(), //# - expression.loop8.aux4
+                        forall|k: int| 0 <= k < fields@.len() ==> *(#[trigger] it.seq()[k]) == fields@[k], //# - expression.loop8.aux5
                         forall|k: int| 0 <= k < fields@.len() ==> e_ok((#[trigger] fields@[k]).1, n), //# C07 expression.loop8.aux6
                         fields_in_range(fields_and_types, n8 as int), //# C07 expression.loop8.aux7
                         forall|k: int| 0 <= k < fields@.len() ==> fields_and_types@.dom().contains((#[trigger] fields@[k]).0), //# C07 expression.loop8.aux8
@@ -1642,8 +1642,8 @@ impl TypeChecker {
 //@   loop 9 binder it
                     invariant
                         self.inv2(), self.grows(old(self)), n == self.variables@.len(), vs == self.variables@, il == ctx.inside_loop, ip == ctx.inside_pure, ret is Some ==> self.valid(ret->Some_0), //# C04,C05 expression.loop9.aux1
-                        it.seq().len() == values@.len(), //# C07 expression.loop9.aux2
-                        forall|k: int| 0 <= k < values@.len() ==> *(#[trigger] it.seq()[k]) == values@[k], //# C07 expression.loop9.aux3
+                        it.seq().len() == values@.len(), //# - expression.loop9.aux2
+                        forall|k: int| 0 <= k < values@.len() ==> *(#[trigger] it.seq()[k]) == values@[k], //# - expression.loop9.aux3
                         forall|k: int| 0 <= k < values@.len() ==> e_ok(#[trigger] values@[k], n), //# C07 expression.loop9.aux4
                         forall|k: int| 0 <= k < tys@.len() ==> self.valid(#[trigger] tys@[k]), //# C07 expression.loop9.aux5
                         forall|k: int| 0 <= k < it.index@ ==> e_both(vs, #[trigger] values@[k], il, ip), //# C04,C05 expression.loop9.members_checked
@@ -1651,8 +1651,8 @@ impl TypeChecker {
 //@   loop 10 binder it
                     invariant
                         self.inv2(), self.grows(old(self)), n == self.variables@.len(), vs == self.variables@, il == ctx.inside_loop, ip == ctx.inside_pure, ret is Some ==> self.valid(ret->Some_0), self.valid(inner_ty), //# C04,C05 expression.loop10.aux1
-                        it.seq().len() == values@.len(), //# C07 expression.loop10.aux2
-                        forall|k: int| 0 <= k < values@.len() ==> *(#[trigger] it.seq()[k]) == values@[k], //# C07 expression.loop10.aux3
+                        it.seq().len() == values@.len(), //# - expression.loop10.aux2
+                        forall|k: int| 0 <= k < values@.len() ==> *(#[trigger] it.seq()[k]) == values@[k], //# - expression.loop10.aux3
                         forall|k: int| 0 <= k < values@.len() ==> e_ok(#[trigger] values@[k], n), //# C07 expression.loop10.aux4
                         forall|k: int| 0 <= k < it.index@ ==> e_both(vs, #[trigger] values@[k], il, ip), //# C04,C05 expression.loop10.elements_checked
 //@   endloop
@@ -1903,7 +1903,7 @@ impl TypeChecker {
                         xs1.len() == ys1.len(), it.seq().len() == xs1.len(), //# C03,C05 sub_unify.loop1.tuple_lengths_match
                         self.inv2(), self.grows(old(self)), self.types@.len() >= n1, merges_only(ts1, self.types@), //# C02,C07 sub_unify.loop1.aux1
                         vstd::std_specs::btree::key_obeys_cmp_spec::<(TyID, TyID)>(), //# C02,C07 sub_unify.loop1.aux2
-                        forall|i: int| 0 <= i < xs1.len() ==> *(#[trigger] it.seq()[i]).0 == xs1[i] && *it.seq()[i].1 == ys1[i], //# C07 sub_unify.loop1.aux3
+                        forall|i: int| 0 <= i < xs1.len() ==> *(#[trigger] it.seq()[i]).0 == xs1[i] && *it.seq()[i].1 == ys1[i], //# - sub_unify.loop1.aux3
                         forall|k: int| 0 <= k < xs1.len() ==> (#[trigger] xs1[k]).0 < n1 && (#[trigger] ys1[k]).0 < n1, //# C07 sub_unify.loop1.aux4
 //@   endloop
 //@   ghost before-loop 2
@@ -1914,7 +1914,7 @@ impl TypeChecker {
                         xs2.len() == ys2.len(), it.seq().len() == xs2.len(), //# C03 sub_unify.loop2.arities_match
                         self.inv2(), self.grows(old(self)), self.types@.len() >= n2, merges_only(ts1, self.types@), //# C02,C07 sub_unify.loop2.aux1
                         vstd::std_specs::btree::key_obeys_cmp_spec::<(TyID, TyID)>(), //# C02,C07 sub_unify.loop2.aux2
-                        forall|i: int| 0 <= i < xs2.len() ==> *(#[trigger] it.seq()[i]).0 == xs2[i] && *it.seq()[i].1 == ys2[i], //# C07 sub_unify.loop2.aux3
+                        forall|i: int| 0 <= i < xs2.len() ==> *(#[trigger] it.seq()[i]).0 == xs2[i] && *it.seq()[i].1 == ys2[i], //# - sub_unify.loop2.aux3
                         forall|k: int| 0 <= k < xs2.len() ==> (#[trigger] xs2[k]).0 < n2 && (#[trigger] ys2[k]).0 < n2, //# C07 sub_unify.loop2.aux4
 //@   endloop
 //@   ghost before-loop 4
@@ -1926,7 +1926,7 @@ impl TypeChecker {
                         vstd::std_specs::btree::key_obeys_cmp_spec::<(TyID, TyID)>(), //# C02,C07 sub_unify.loop4.aux2
                         vstd::std_specs::btree::key_obeys_cmp_spec::<String>(), //# C02,C07 sub_unify.loop4.aux3
                         fields_in_range(a_fields, n4 as int), fields_in_range(b_fields, n4 as int), //# C02,C07 sub_unify.loop4.aux4
-                        forall|j: int| 0 <= j < it.seq().len() ==> b_fields@.contains_pair(*(#[trigger] it.seq()[j]).0, *it.seq()[j].1), //# C07 sub_unify.loop4.aux5
+                        forall|j: int| 0 <= j < it.seq().len() ==> b_fields@.contains_pair(*(#[trigger] it.seq()[j]).0, *it.seq()[j].1), //# - sub_unify.loop4.aux5
 //@   endloop
 //@   ghost before-loop 5
                 let ghost n5 = self.types@.len(); let ghost xs5 = a_args@; let ghost ys5 = b_args@;
@@ -1935,8 +1935,8 @@ impl TypeChecker {
                     invariant
                         self.inv2(), self.grows(old(self)), self.types@.len() >= n5, merges_only(ts1, self.types@), //# C02,C07 sub_unify.loop5.aux1
                         vstd::std_specs::btree::key_obeys_cmp_spec::<(TyID, TyID)>(), //# C02,C07 sub_unify.loop5.aux2
-                        it.seq().len() <= xs5.len(), it.seq().len() <= ys5.len(), //# C07 sub_unify.loop5.aux3
-                        forall|i: int| 0 <= i < it.seq().len() ==> *(#[trigger] it.seq()[i]).0 == xs5[i] && *it.seq()[i].1 == ys5[i], //# C07 sub_unify.loop5.aux4
+                        it.seq().len() <= xs5.len(), it.seq().len() <= ys5.len(), //# - sub_unify.loop5.aux3
+                        forall|i: int| 0 <= i < it.seq().len() ==> *(#[trigger] it.seq()[i]).0 == xs5[i] && *it.seq()[i].1 == ys5[i], //# - sub_unify.loop5.aux4
                         forall|k: int| 0 <= k < xs5.len() ==> (#[trigger] xs5[k]).0 < n5, //# C07 sub_unify.loop5.aux5
                         forall|k: int| 0 <= k < ys5.len() ==> (#[trigger] ys5[k]).0 < n5, //# C07 sub_unify.loop5.aux6
 //@   endloop
@@ -1949,7 +1949,7 @@ impl TypeChecker {
                         vstd::std_specs::btree::key_obeys_cmp_spec::<(TyID, TyID)>(), //# C02,C07 sub_unify.loop7.aux2
                         vstd::std_specs::btree::key_obeys_cmp_spec::<String>(), //# C02,C07 sub_unify.loop7.aux3
                         fields_in_range(a_variants, n7 as int), fields_in_range(b_variants, n7 as int), //# C02,C07 sub_unify.loop7.aux4
-                        forall|j: int| 0 <= j < it.seq().len() ==> b_variants@.contains_pair(*(#[trigger] it.seq()[j]).0, *it.seq()[j].1), //# C07 sub_unify.loop7.aux5
+                        forall|j: int| 0 <= j < it.seq().len() ==> b_variants@.contains_pair(*(#[trigger] it.seq()[j]).0, *it.seq()[j].1), //# - sub_unify.loop7.aux5
 //@   endloop
 //@   ghost before
 //@| if a == b || seen.contains(&(a, b)) {
@@ -2049,9 +2049,9 @@ impl TypeChecker {
 //@   loop 1 binder it
             invariant
                 self.inv2(), self.grows(old(self)), //# C07 type_from_function.loop1.aux1
-                it.seq().len() == params@.len(), //# C07 type_from_function.loop1.aux2
-                forall|k: int| 0 <= k < params@.len() ==> *(#[trigger] it.seq()[k]) == params@[k], //# C07 type_from_function.loop1.aux3
-                args@.len() == it.index@, //# C07 type_from_function.loop1.aux4
+                it.seq().len() == params@.len(), //# - type_from_function.loop1.aux2
+                forall|k: int| 0 <= k < params@.len() ==> *(#[trigger] it.seq()[k]) == params@[k], //# - type_from_function.loop1.aux3
+                args@.len() == it.index@, //# - type_from_function.loop1.aux4
                 forall|k: int| 0 <= k < args@.len() ==> self.valid(#[trigger] args@[k]), //# C07 type_from_function.loop1.aux5
 //@   endloop
 //@   ghost before
@@ -2128,8 +2128,8 @@ impl TypeChecker {
 //@   endspec
 //@   loop 1 binder it
             invariant
-                self.inv2(), self.grows(old(self)), it.seq().len() == statements@.len(), //# C07 expression_block.loop1.aux1
-                forall|k: int| 0 <= k < statements@.len() ==> *(#[trigger] it.seq()[k]) == statements@[k], //# C07 expression_block.loop1.aux2
+                self.inv2(), self.grows(old(self)), it.seq().len() == statements@.len(), //# - expression_block.loop1.aux1
+                forall|k: int| 0 <= k < statements@.len() ==> *(#[trigger] it.seq()[k]) == statements@[k], //# - expression_block.loop1.aux2
                 ret is Some ==> self.valid(ret->Some_0), //# C07 expression_block.loop1.aux3
                 forall|i: int| 0 <= i < it.index@ ==> s_brk(#[trigger] statements@[i], ctx.inside_loop), //# C05 expression_block.loop.break_ok
                 forall|i: int| 0 <= i < it.index@ ==> s_pur(old(self).variables@, #[trigger] statements@[i], ctx.inside_pure), //# C04 expression_block.loop.pure_ok
